@@ -33,7 +33,7 @@ _REAL = {
     "os_makedirs": os.makedirs, "os_listdir": os.listdir,
     "os_getcwd": os.getcwd, "os_getcwdb": os.getcwdb, "os_chdir": os.chdir,
     "os_lstat": os.lstat, "os_chmod": os.chmod, "os_access": os.access, "os_utime": os.utime,
-    "islink": os.path.islink,
+    "islink": os.path.islink, "os__exit": os._exit,
 }
 FAKE_FD_BASE = 1_000_000   # never a valid real descriptor: a stray real syscall gets EBADF
 
@@ -45,6 +45,14 @@ TOOL_ID = 4  # sys.monitoring tool id (0 debugger, 1 coverage, 2 profiler, 5 opt
 class StepBudgetExceeded(BaseException):
     """Raised by the step clock.  BaseException so `except Exception` cannot eat it;
     it is re-raised on every further back-edge so `except BaseException` cannot either."""
+
+
+class HardExit(BaseException):
+    """os._exit() inside the simulated process: ends it at once, buffers are NOT flushed."""
+
+    def __init__(self, code):
+        super().__init__(code)
+        self.code = code
 
 
 class HarnessError(Exception):
@@ -698,6 +706,9 @@ class World:
             return None
         raise FileNotFoundError(2, "No such file or directory", path)
 
+    def _os__exit(self, code=0):
+        raise HardExit(code)
+
     def _islink(self, path):
         try:
             vp = self._vpath(path)
@@ -952,6 +963,7 @@ class World:
         os.getcwd, os.chdir = self._os_getcwd, self._os_chdir
         os.lstat, os.chmod, os.access, os.utime = self._os_stat, self._os_chmod, self._os_access, self._os_utime
         os.path.islink = self._islink
+        os._exit = self._os__exit
         os.getcwdb = lambda: self._os_getcwd().encode()
         sys.stdin = _StdinShell(self.stdin_buf)
         sys.stdout = self.stdout_txt
@@ -980,14 +992,21 @@ class World:
         os.lstat, os.chmod, os.access, os.utime = (_REAL["os_lstat"], _REAL["os_chmod"], _REAL["os_access"],
                                                    _REAL["os_utime"])
         os.path.islink = _REAL["islink"]
+        os._exit = _REAL["os__exit"]
         sys.stdin, sys.stdout, sys.stderr = s["stdin"], s["stdout"], s["stderr"]
         self._saved = None
         return False
 
     # process exit -----------------------------------------------------------
-    def finish(self):
-        """What interpreter shutdown does to the streams the tool left open."""
+    def finish(self, flush=True):
+        """What interpreter shutdown does to the streams the tool left open (nothing at all
+        after os._exit: whatever sits in a buffer is lost)."""
         flush_failed = False
+        if not flush:
+            # keep the buffered objects alive (unflushed) until the results have been read
+            self._zombies = list(self.fs.handles)
+            self.fs.handles = []
+            return False
         try:
             if not self.stdout_txt.closed:
                 self.stdout_txt.flush()
@@ -1057,6 +1076,7 @@ def run_tool(world: World, tool: str, argv, budget: int) -> Outcome:
     clock.budget = budget
     clock.exceeded = False
     clock.install(_tool_codes(tool))
+    hard = False
     try:
         try:
             mod.start(list(argv))
@@ -1068,6 +1088,12 @@ def run_tool(world: World, tool: str, argv, budget: int) -> Outcome:
             else:
                 out.exit = "fail"
                 out.detail = "SystemExit(%s)" % (c if isinstance(c, int) else "str")
+        except HardExit as e:
+            hard = True
+            if e.code in (0, None):
+                out.exit, out.detail = "ok", "os._exit(0)"
+            else:
+                out.exit, out.detail = "fail", "os._exit(%s)" % (e.code,)
         except StepBudgetExceeded:
             out.exit, out.detail, out.hang = "fail", "StepBudgetExceeded", True
         except HarnessError:
@@ -1081,6 +1107,6 @@ def run_tool(world: World, tool: str, argv, budget: int) -> Outcome:
     if clock.exceeded:
         out.exit, out.detail, out.hang = "fail", "StepBudgetExceeded", True
     out.steps = clock.count
-    out.flush_failed = world.finish()
+    out.flush_failed = world.finish(flush=not hard)
     out.stderr = world.stderr.getvalue()
     return out
